@@ -48,4 +48,9 @@ CHECKS['C17'] = dict(
     note='Golden CRC_EXTRA list is a fixed table in coq/Proofs/TableDialects.v. Trusted: Coq kernel, vm_compute, table translator (reflection + go/ast), extraction, driver, harness.',
     technique='Coq proof (vm_compute over regenerated tables + generic association-map lemmas) + extracted-model differential')
 
+CHECKS['C04'] = dict(
+    text='Kernel-checked proofs on the Read/Write model for every well-formed codec (sizes not wrapped; the well-formedness of every shipped message type is itself a vm_compute obligation over the regenerated table): Read(Write(v)) = canonical(v) in both versions; v1 exact length; v2 payload = full encoding with trailing zeros stripped, never below one byte; the v2 decoder is a function of the payload cut/zero-padded to the extended size, hence invariant under appending/removing zero bytes and ignoring trailing bytes; no panic on any payload of any length; the caller\'s backing array untouched. Tied to pkg/message by a differential over all types x boundary values x all payload lengths x sentinel-filled caller buffers.',
+    note='Well-formedness of codecs of arbitrary user structs is not proved generically (checked for the shipped table and exercised on user shapes). Trusted: Coq kernel, vm_compute, extraction, driver, harness, table translator.',
+    technique='Coq proof (induction over field lists, little-endian byte lemmas, zero-padding algebra) + extracted-model differential')
+
 NOT_APPLICABLE = [{'property_id': p, 'reason': PENDING} for p in ALL if p not in CHECKS]
